@@ -19,6 +19,10 @@ type Behaviour struct {
 	Delay time.Duration // wait this long (or until ctx ends) before answering
 	Hold  chan struct{} // if non-nil, additionally wait until closed (or ctx ends)
 	Fail  error         // if non-nil, answer with this error
+	// Plain makes an immediate failure (no Delay/Hold) report Fail even when the request context
+	// has already ended, the way a client does that fails before it ever looks at the context
+	// ("connection refused"). The error then does not wrap the context's error.
+	Plain bool
 }
 
 var ErrInjected = errors.New("injected service failure")
@@ -170,7 +174,7 @@ func (s *Service) do(ctx context.Context, name string, cond bool, old uint32) (*
 			ctxErr = ctx.Err()
 		}
 	}
-	if ctxErr == nil && ctx.Err() != nil {
+	if ctxErr == nil && ctx.Err() != nil && !(b.Plain && b.Fail != nil) {
 		ctxErr = ctx.Err()
 	}
 
